@@ -154,7 +154,7 @@ def _show_pre(pre):
 def _bound_from(fn, name, callee_names):
     """is `name` bound (possibly via tuple unpacking, first element) from a call of one of callee_names?"""
     for n in own_nodes(fn.node):
-        if isinstance(n, (ast.Assign, ast.AnnAssign)) and getattr(n, "value", None) is not None:
+        if isinstance(n, (ast.Assign, ast.AnnAssign, ast.NamedExpr)) and getattr(n, "value", None) is not None:
             tg = n.targets if isinstance(n, ast.Assign) else [n.target]
             v = n.value.value if isinstance(n.value, ast.Await) else n.value
             if isinstance(v, ast.Subscript) and isinstance(v.slice, ast.Constant) and v.slice.value == 0:
